@@ -62,6 +62,7 @@ def run(tier):
                       dict(cfgname=f["cfgname"], script=f["script"], failing_event=f["event"]))
     api_part(chk, thorough, exported)
     later_request_part(chk, thorough)
+    overlapping_calls_part(chk, thorough)
     chk.sample(dict(kind="script", cfg=items[len(items) // 2][0], script=items[len(items) // 2][2]))
     chk.sample(dict(kind="trace-events", events=rec.events[1:4]))
     chk.assumptions += ["loopback UDP preserves order and does not drop (single-threaded stepping)",
@@ -139,6 +140,127 @@ def api_part(chk, thorough, exported):
                       dict(kind="api", client=info["client"], cfgname=info["cfgname"], plan=info["plan"], variant=info["variant"], failing_event=ev))
 
 
+def overlapping_calls(client, cfg, n, order):
+    """n calls in flight at once on ONE session (async: gather; sync: threads); the agent answers request k (the k-th OID) with the
+    INTEGER k, once all n requests have arrived, in the given order.  Returns [(asked, got, exc, isexc)]."""
+    import asyncio, socket, threading, time
+    from vlib import agent as ag, apidrv, walks
+    from gufo.snmp import SnmpVersion
+    sock = socket.socket(socket.AF_INET, socket.SOCK_DGRAM)
+    sock.bind(("127.0.0.1", 0))
+    sock.settimeout(0.05)
+    stop = {"v": False}
+
+    def agent_loop():
+        a = ag.Agent(engine=cfg.engine or None) if cfg.engine else ag.Agent()
+        seen = []
+        t_first = None
+        while not stop["v"]:
+            try:
+                data, peer = sock.recvfrom(65535)
+            except OSError:
+                data = None
+            if data:
+                try:
+                    req = ag.Request(cfg, data)
+                    if req.names and not req.broken:
+                        seen.append((req, peer))
+                        t_first = t_first or time.monotonic()
+                    elif not req.broken:
+                        sock.sendto(a.report(cfg, req), peer)            # discovery / time synchronisation
+                except Exception:  # noqa
+                    pass
+            if seen and (len(seen) >= n or time.monotonic() - t_first > 0.25):
+                idx = list(range(len(seen)))
+                if order == "reversed":
+                    idx.reverse()
+                for i in idx:
+                    req, peer = seen[i]
+                    k = walks.arcs_of(bytes(req.names[0]))[-1]
+                    sock.sendto(a.reply(cfg, req, [(bytes(req.names[0]), ("int", int(k)))]), peer)
+                seen, t_first = [], None
+    th = threading.Thread(target=agent_loop, daemon=True)
+    th.start()
+    ver = {"v1": SnmpVersion.v1, "v2c": SnmpVersion.v2c, "v3": SnmpVersion.v3}[cfg.ver]
+    kw = dict(port=sock.getsockname()[1], community=cfg.community, version=ver, timeout=0.6)
+    if cfg.ver == "v3":
+        kw.update(engine_id=cfg.engine, user=apidrv.user_of(cfg))
+    oids = ["1.3.6.1.4.1.9999.7.%d" % (k + 1) for k in range(n)]
+    out = []
+
+    def outcome(k, fn_result, exc):
+        if exc is None:
+            return (k + 1, int(fn_result) if isinstance(fn_result, int) else -1, "", True)
+        return (k + 1, 0, type(exc).__name__, isinstance(exc, Exception))
+    if client == "async":
+        from gufo.snmp.async_client import SnmpSession
+
+        async def go():
+            s = SnmpSession("127.0.0.1", **kw)
+
+            async def one(k):
+                await asyncio.sleep(0.01 * k)
+                try:
+                    return outcome(k, await s.get(oids[k]), None)
+                except BaseException as e:  # noqa
+                    return outcome(k, None, e)
+            return await asyncio.gather(*[one(k) for k in range(n)])
+        out = list(asyncio.run(go()))
+    else:
+        from gufo.snmp.sync_client import SnmpSession
+        s = SnmpSession("127.0.0.1", **kw)
+        res = [None] * n
+
+        def work(k):
+            time.sleep(0.01 * k)
+            try:
+                res[k] = outcome(k, s.get(oids[k]), None)
+            except BaseException as e:  # noqa
+                res[k] = outcome(k, None, e)
+        ths = [threading.Thread(target=work, args=(k,), daemon=True) for k in range(n)]
+        for t in ths:
+            t.start()
+        for t in ths:
+            t.join(8.0)
+        out = [r if r is not None else (k + 1, 0, "DidNotReturn", True) for k, r in enumerate(res)]
+    stop["v"] = True
+    th.join(1.0)
+    sock.close()
+    return out
+
+
+def overlapping_calls_part(chk, thorough):
+    """TraceOwn.tla: calls that overlap on one session return their own reply or an exception - never another call's reply."""
+    from vlib import bounded
+    std = scripts.std_cfgs()
+    rec2 = trace.Recorder("c04-own")
+    plans = [(client, cn, n, order) for client in ("async", "sync") for cn in (("v2c", "v3-md5") if not thorough else ("v1", "v2c", "v3-noauth", "v3-md5", "v3-sha1-aes"))
+             for n in (2, 3) for order in ("sent", "reversed")]
+    index = []
+    for client, cn, n, order in plans:
+        st, res = bounded.call(lambda: overlapping_calls(client, std[cn], n, order), 30.0)
+        if st == "hang":
+            res = [(k + 1, 0, "DidNotReturn", True) for k in range(n)]
+        for asked, got, exc, isexc in res:
+            rec2.emit(dict(ev="Own", client=client, ver=cn, asked=asked, got=got, exc=exc, isexc=bool(isexc), n=n, order=order))
+            index.append((client, cn, n, order))
+        chk.case(("overlapping", client, cn, n, order), nontrivial=True)
+    v = trace.validate("TraceOwn.tla", "TraceOwn.cfg", rec2.close())
+    chk.add_tlc(v["res"], "TraceOwn (overlapping calls)")
+    chk.traces += len(plans)
+    seen = set()
+    for f in v["fails"]:
+        ev = rec2.events[f - 1]
+        key = index[f - 1]
+        if key in seen:
+            continue
+        seen.add(key)
+        chk.violation(dict(kind="overlapping-calls", client=ev["client"], got="other" if ev["got"] else ev["exc"]),
+                      "%s %s: %d get() calls in flight on one session, replies sent in %s order: the call for OID #%d returned %s" %
+                      (ev["client"], ev["ver"], ev["n"], ev["order"], ev["asked"], ("the reply to OID #%d" % ev["got"]) if ev["got"] else ev["exc"]),
+                      dict(kind="overlapping", client=ev["client"], cfgname=ev["ver"], n=ev["n"], order=ev["order"]))
+
+
 def later_request_part(chk, thorough):
     """'Skipped without ending the wait, so a matching reply arriving later is still delivered' over a HISTORY: the wait of request 1
     skips a foreign datagram late and then ends without a reply; request 2 on the same session is answered inside its own wait and must
@@ -171,6 +293,15 @@ def later_request_part(chk, thorough):
 def replay(path):
     d = json.load(open(path))
     r = d["replay"]
+    if r.get("kind") == "overlapping":
+        std = scripts.std_cfgs()
+        res = overlapping_calls(r["client"], std[r["cfgname"]], r["n"], r["order"])
+        print(res)
+        if any((exc == "" and got != asked) or (exc != "" and not isexc) for asked, got, exc, isexc in res):
+            print("VIOLATION property=C04 replay=%s" % path)
+            return 1
+        print("replay: accepted")
+        return 0
     if r.get("kind") == "later":
         from checks import c18
         std = scripts.std_cfgs()
